@@ -187,7 +187,21 @@ def gen_program(rng, thorough):
                 claims.append("(const %s %s)" % (G.sx(dk), G.sx(x)))
     values = own_vals + derived
     envs = {"base": {"imports": [], "values": base_vals}} if has_base else {}
-    envs["root"] = {"imports": [("base", rng.chance(4, 5))] if has_base else [], "values": values}
+    imports = [("base", rng.chance(4, 5))] if has_base else []
+    if has_base and rng.chance(1, 2):
+        # a second import (listed before or after the first): ${imports.X} denotes X's OWN value, whatever else is merged
+        b2 = [(k, G.gen_literal(rng, 2, ["a", "b", "c"], STRS)) for k in rng.shuffle(ks)[: 1 + rng.below(len(ks))]]
+        envs["base2"] = {"imports": [], "values": b2}
+        imports = rng.shuffle(imports + [("base2", rng.chance(4, 5))])
+        for nm, vals in (("base", base_vals), ("base2", b2)):
+            dk = "imp_" + nm
+            values.append((dk, ("sym", [("name", "imports"), ("name", nm)])))
+            claims.append("(lit %s %s)" % (G.sx(dk), G.w_expr(("obj", vals))))
+            sub = [kv for kv in vals if kv[1][0] == "obj"]
+            if sub:
+                k2, v2 = rng.choice(sub)
+                values.append((dk + "_s", ("tojson", ("sym", [("name", "imports"), ("name", nm), ("key", k2)]))))
+    envs["root"] = {"imports": imports, "values": values}
     c = G.case_from_graph(envs, "root")
     c["claims"] = claims
     # second rendering: shuffled key order at the top level and inside object literals
